@@ -3,7 +3,8 @@ import Driver.Common
 
 /-! Driver for the `OutPort` model (C16). Ops as written by `harness/hcore/src/bin/outport.rs`:
 
-  `case v1|v2 <n> <actors>`            → `ok`
+  `case v1|v2 <n> <actors> [<k>]`      → `ok`   (the first k actors are held in pre_start)
+  `release <actor>`                     → `ok`
   `pub <m>`                             → `ok`
   `sub <key> <actor> <conv>`            → v2 `ok` · v1 `held=<h> fin=<f> rx=<r>`
   `stop <actor>`                        → `ok`
@@ -51,6 +52,9 @@ structure St where
   /-- (key used in the ops, ordinal of the subscription in the model): they differ only in
   shrunk replays, where some `sub` ops were deleted -/
   keyMap : List (Nat × Nat) := []
+  /-- subscriber actors still held in `pre_start`: their mailbox accepts messages (the model
+  counts them as delivered) but nothing has been handled, so nothing can be observed yet -/
+  heldActors : List Nat := []
 
 /-- model ordinal of an op key -/
 def St.toModel (st : St) (k : Nat) : Option Nat := (st.keyMap.find? (·.1 == k)).map (·.2)
@@ -148,6 +152,13 @@ def step (st : St) (op impl : String) : St × StepOut :=
   match words op with
   | ["case", v, _, _] =>
     ({ isV2 := v == "v2", s2 := V2.init Nat Nat true, s1 := V1.init Nat Nat ringCap }, { model := "ok" })
+  | ["case", v, _, _, k] =>
+    ({ isV2 := v == "v2", s2 := V2.init Nat Nat true, s1 := V1.init Nat Nat ringCap,
+       heldActors := List.range (k.toNat?.getD 0) }, { model := "ok", nontrivial := true })
+  | ["release", a] =>
+    match a.toNat? with
+    | some a => ({ st with heldActors := st.heldActors.filter (· != a) }, { model := "ok", nontrivial := st.heldActors.contains a })
+    | none => (st, { model := "bad-op" })
   | ["pub", m] =>
     match m.toNat? with
     | some m =>
@@ -190,6 +201,12 @@ def step (st : St) (op impl : String) : St × StepOut :=
       | some f =>
         let lagged := f.mask.any (·.isSome)
         let (subs, bad) := oracleCalls st impl
+        -- a forwarding task may end only because its subscriber has stopped
+        let endedAlive := (words impl).contains "done=true" &&
+          (match st.subs.find? (fun i => st.toModel i.key == some k) with
+           | some i => !st.stopped.contains i.actor
+           | none => false)
+        let bad := if endedAlive then bad ++ ["subscription-ended-alive"] else bad
         let subs := subs.map fun i =>
           if st.toModel i.key == some k then { i with grantedAt := st.pubs.length, done := f.ended } else i
         let obs := s!"calls={showCalls st calls} done={f.ended} {v1Counts s1}"
@@ -202,8 +219,15 @@ def step (st : St) (op impl : String) : St × StepOut :=
     | some opk, some k =>
       let got := if st.isV2 then (st.s2.all.find? (·.key == k)).map (·.got)
                  else (st.s1.fwds[k]?).map (·.got)
+      let heldNow := match st.subs.find? (·.key == opk) with
+        | some i => st.heldActors.contains i.actor
+        | none => false
       match got with
       | some g =>
+        if heldNow then
+          -- delivered to the mailbox of an actor that has not started handling yet
+          (st, { model := "-", oracle := if impl == "-" then [] else ["subsequence"] })
+        else
         (st, { model := showNats g, oracle := oracleSeq st opk impl, nontrivial := !g.isEmpty,
                key := some s!"seq {st.isV2} {k} {st.pubs.length} {showNats g}" })
       | none => (st, { model := "no-such-subscription" })
